@@ -109,6 +109,8 @@ def run_case(case):
         fc, fr = set(oracle.free_nodes(c)), set(oracle.free_nodes(r))
         if fc != fr:
             fail("free-signals-differ", f"{sorted(fr)} vs {sorted(fc)}\n{text}")
+        elif not sem.is_dag(r):
+            fail("function-differs", f"the circuit read back is cyclic, the original is not\n{text}")
         elif len(fc) <= 10:
             for a in oracle.all_input_vectors(sorted(fc)):
                 vc, vr = oracle.simulate(c, a), oracle.simulate(r, a)
